@@ -180,6 +180,8 @@ def main(tier, seed):
         'periodRemainderRange} intersected with [grDomOut.lbx, grDomOut.ubx] (the LinConEQ Convert adds); the margins around '
         'the poles of tan that this set leaves out are not demanded; first/last breakpoint are compared with '
         'periodRemainderRange',
+        'periodLength is taken to stand for the exact period: the argument shift |k|*periodLength*2^-53 that its rounding to '
+        'double causes k periods away is granted on top of the tolerance (|f\'(x)| times that shift)',
         'integer argument: the covered points are the integers of [grDomOut.lbx, grDomOut.ubx]; the error bound is demanded '
         'only there; when #points == #integers the first/last breakpoint are compared with ceil(lbx)/floor(ubx); no integer '
         'in the domain -> empty PL is counted (empty-int-domain), not judged',
